@@ -19,6 +19,13 @@ def extra_cases(rng, quick):
         for i in range(0, len(vals), 11):
             decls = ";".join("p%d:%srpx" % (j, v) for j, v in enumerate(vals[i:i + 11]))
             out.append((o, ".a{" + decls + ";w:calc(" + vals[i] + "rpx + 1px)}"))
+    # fractional ratios x integer-written lengths that the TRUNCATED ratio divides evenly (round 12, C10-11: an integer fast path decided with `ratio as i64`)
+    for r in (7.5, 3.5, 375.5, 0.5, 1.5, 2.25, 99.9):
+        t = max(1, int(r))
+        vals = [str(k * t) for k in (1, 2, 3, 21, 100, 750)] + ["-%d" % (3 * t), "+%d" % (6 * t), str(3 * t) + ".0"]
+        o = {"class_prefix": None, "class_prefix_sign": None, "rpx_ratio": r, "import_sign": None, "convert_host": False, "host_is": None}
+        decls = ";".join("p%d:%srpx" % (j, v) for j, v in enumerate(vals))
+        out.append((o, ".a{" + decls + ";--gap:+%drpx;w:calc(1px - -%drpx)}@media (min-width:%drpx){.b{c:d}}" % (6 * t, 4 * t, 2 * t)))
     return out
 
 
